@@ -83,10 +83,7 @@ def shards(tier, seed):
 def judge(acc, pb, family, label, case, level):
     """compare one problem's kind with the extractor"""
     acc.count("evaluations")
-    try:
-        ex = rk.extract(pb)
-    except Exception as e:  # the extractor must cope with everything the corpora contain
-        raise
+    ex = rk.extract(pb)  # an exception here is a harness error: the extractor must cope with every model
     try:
         feats = set(pb.kind.features)
     except Exception as e:
@@ -181,7 +178,9 @@ def corpus(which):
         for k, v in ma.get_example_problems().items():
             out["ma:" + k] = v.problem
     else:
-        repo = os.environ.get("VERIF_REPO") or "/repo"
+        import unified_planning
+
+        repo = os.path.dirname(os.path.dirname(os.path.abspath(unified_planning.__file__)))
         p = os.path.join(repo, "up_test_cases")
         if p not in sys.path:
             sys.path.insert(0, p)
